@@ -57,8 +57,8 @@ func (o mwOp) String() string {
 
 // facades: prefix text and middleware list in application order (as concatenated by the documented rule:
 // own arguments first, then the parent's).
-var facadePrefix = map[string]string{"": "", "P1": "/p", "P2": "/p/q", "R": "/p/r/{id}"}
-var facadeMW = map[string][]string{"": nil, "P1": {"D"}, "P2": {"E", "F", "D"}, "R": {"G", "D"}}
+var facadePrefix = map[string]string{"": "", "P1": "/p", "P2": "/p/q", "R": "/p/r/{id}", "P3": "/p/q/s"}
+var facadeMW = map[string][]string{"": nil, "P1": {"D"}, "P2": {"E", "F", "D"}, "R": {"G", "D"}, "P3": {"H", "E", "F", "D"}} // P3: three levels deep
 
 func c09Alphabet() []mwOp {
 	return []mwOp{
@@ -73,6 +73,7 @@ func c09Alphabet() []mwOp {
 		{K: "handle", P: "/x/{id}"},
 		{K: "handle", Via: "P2", P: "/any", Route: []string{"M1"}}, // Prefix.Any below a nested prefix
 		{K: "handle", Via: "R", P: ""},                             // Resource.Any
+		{K: "handle", Via: "P3", P: "/w", Ms: []string{"GET"}, Route: []string{"M1"}}, // a prefix of a prefix of a prefix
 		{K: "handle", Via: "P1", P: "/y", Ms: []string{"POST", "PUT"}, Route: []string{"M1", "M2", "M3"}},
 		{K: "remove", P: "/x"},
 		{K: "remove", P: "/x", Ms: []string{"GET"}},
@@ -205,6 +206,7 @@ type c09Sys struct {
 	log    *hv.Log
 	p1     *mux.Prefix[*hv.H]
 	p2     *mux.Prefix[*hv.H]
+	p3     *mux.Prefix[*hv.H]
 	res    *mux.Resource[*hv.H]
 }
 
@@ -235,6 +237,7 @@ func newC09Sys(cfg RouterCfg) *c09Sys {
 	s.master = mws(s.log, []string{"M1", "M2", "M3"})
 	s.p1 = s.r.Prefix("/p", spare(s.log, []string{"D"})...)
 	s.p2 = s.p1.Prefix("/q", spare(s.log, []string{"E", "F"})...)
+	s.p3 = s.p2.Prefix("/s", spare(s.log, []string{"H"})...)
 	s.res = s.p1.Resource("/r/{id}", spare(s.log, []string{"G"})...)
 	return s
 }
@@ -277,10 +280,13 @@ func (s *c09Sys) apply(o mwOp) (any, bool) {
 				default:
 					s.r.Handle(o.P, h, m, o.Ms...)
 				}
-			case "P1", "P2":
+			case "P1", "P2", "P3":
 				p := s.p1
 				if o.Via == "P2" {
 					p = s.p2
+				}
+				if o.Via == "P3" {
+					p = s.p3
 				}
 				switch short {
 				case "any":
